@@ -128,12 +128,29 @@ impl C01 {
             }
             Err(e) => return fail("C01/big/samples-err", format!("evaluate_samples failed: {e}")),
         }
-        // missing variable: the last id
-        if let Some(victim) = used.iter().next_back().copied() {
+        // missing variable: the last id, the first id, and a tape-chosen one (a hole inside an otherwise packed state)
+        let k = t.choice(used.len().max(1));
+        let victims: Vec<u64> = [used.iter().next_back().copied(), used.iter().next().copied(), used.iter().nth(k).copied()].into_iter().flatten().collect();
+        for victim in victims {
             let mut s2 = state.clone();
             s2.entries.remove(&victim);
+            ctx.label("big-missing-var");
+            if Some(&victim) != used.iter().next_back() && Some(&victim) != used.iter().next() {
+                ctx.label("big-missing-interior-var");
+            }
             if let Ok((v, _)) = f.evaluate(&s2) {
                 return fail("C01/big/missing-var-accepted", format!("evaluate returned {v} although the state lacks id {victim}"));
+            }
+            // typed entry point as well
+            use v1::function::Function as F;
+            let r = match &f.function {
+                Some(F::Linear(l)) => l.evaluate(&s2).is_ok(),
+                Some(F::Quadratic(x)) => x.evaluate(&s2).is_ok(),
+                Some(F::Polynomial(x)) => x.evaluate(&s2).is_ok(),
+                _ => false,
+            };
+            if r {
+                return fail("C01/big/typed-missing-var-accepted", format!("typed evaluate succeeded although the state lacks id {victim}"));
             }
         }
         Ok(())
@@ -145,7 +162,7 @@ impl Property for C01 {
         "C01"
     }
     fn rule(&self) -> &'static str {
-        "case = function message (any oneof state, any wire-legal representation, <=8 raw terms, degree<=4, ids incl. 0 and u64::MAX; about 5% of the cases: 20..80 raw terms over as many ids, or 9..300 terms (sizes around the powers of two) over ids 0..n / 1..=n / 1000.. with a packed state) x state; \
+        "case = function message (any oneof state, any wire-legal representation, <=8 raw terms, degree<=4, ids incl. 0 and u64::MAX; about 5% of the cases: 20..80 raw terms over as many ids, or 9..300 terms (sizes around the powers of two) over ids 0..n / 1..=n / 1000.. with a packed state, also with a hole at the first / last / an interior id) x state; entry points Function / typed evaluate and evaluate_samples; \
          oracle = exact rational value of the raw message fields; non-trivial = >=2 raw terms and (un-normalised representation or missing-variable case or multi-sample case); \
          distinct = sha256 of (encoded message, state, mode)"
     }
@@ -174,6 +191,8 @@ impl Property for C01 {
             "one-sample-lacks-a-variable",
             "incomplete-sample-with-same-entry-count",
             "sweep=many-variables",
+            "big-missing-interior-var",
+            "samples-typed",
         ]
         .iter()
         .map(|s| s.to_string())
@@ -407,7 +426,14 @@ impl Property for C01 {
                         ctx.fp(&victim.to_le_bytes());
                         ctx.fp(&[k as u8, 0xEE]);
                         ctx.sample_with(|| json!({"mode":"evaluate_samples, one incomplete sample","function":fn_json(&f),"samples":format!("{:?}",samples)}));
-                        return match f.evaluate_samples(&samples) {
+                        use v1::function::Function as F;
+                        let r = match (&f.function, t.coin()) {
+                            (Some(F::Linear(l)), true) => l.evaluate_samples(&samples),
+                            (Some(F::Quadratic(x)), true) => x.evaluate_samples(&samples),
+                            (Some(F::Polynomial(x)), true) => x.evaluate_samples(&samples),
+                            _ => f.evaluate_samples(&samples),
+                        };
+                        return match r {
                             Err(_) => Ok(()),
                             Ok((sv, _)) => fail("C01/samples/missing-var-accepted", format!("evaluate_samples returned {sv:?} although the state of entry {k} lacks id {victim}, which occurs in {f:?}; samples {samples:?}")),
                         };
@@ -418,7 +444,25 @@ impl Property for C01 {
                     ctx.fp_dbg(&e.ids);
                 }
                 ctx.sample_with(|| json!({"mode":"evaluate_samples","function":fn_json(&f),"samples":format!("{:?}",samples)}));
-                let (sv, got_ids) = match f.evaluate_samples(&samples) {
+                // through the Function wrapper or through the typed message's own impl
+                let typed = t.coin();
+                use v1::function::Function as F;
+                let r = match (&f.function, typed) {
+                    (Some(F::Linear(l)), true) => {
+                        ctx.label("samples-typed");
+                        l.evaluate_samples(&samples)
+                    }
+                    (Some(F::Quadratic(x)), true) => {
+                        ctx.label("samples-typed");
+                        x.evaluate_samples(&samples)
+                    }
+                    (Some(F::Polynomial(x)), true) => {
+                        ctx.label("samples-typed");
+                        x.evaluate_samples(&samples)
+                    }
+                    _ => f.evaluate_samples(&samples),
+                };
+                let (sv, got_ids) = match r {
                     Ok(x) => x,
                     Err(e) => return fail("C01/samples/err", format!("evaluate_samples failed: {e} for {f:?} on {samples:?}")),
                 };
